@@ -92,7 +92,7 @@ Routable(x, c) == \A h \in DOMAIN RouteOf(x, c) : RouteOf(x, c)[h][1] \notin {"L
 NodeName == [ xyz |-> "Xyz", yxy |-> "Yxy", lab |-> "Lab", lch |-> "Lch", luv |-> "Luv", lchuv |-> "Lchuv",
               hsluv |-> "Hsluv", oklab |-> "Oklab", oklch |-> "Oklch", okhsl |-> "Okhsl", okhsv |-> "Okhsv",
               okhwb |-> "Okhwb", linsrgb |-> "Rgb", srgb |-> "Rgb", hsl |-> "Hsl", hsv |-> "Hsv", hwb |-> "Hwb",
-              linluma |-> "Luma", srgbluma |-> "Luma",
+              linluma |-> "Luma", srgbluma |-> "Luma", lmsvk |-> "Lms", lmsbfd |-> "Lms",
               adobe |-> "Rgb", linadobe |-> "Rgb", p3 |-> "Rgb", linp3 |-> "Rgb", rec2020 |-> "Rgb", linrec2020 |-> "Rgb",
               rec709 |-> "Rgb", hsv_adobe |-> "Hsv", hsl_p3 |-> "Hsl", hwb_rec2020 |-> "Hwb",
               xyz50 |-> "Xyz", lab50 |-> "Lab", lch50 |-> "Lch", luv50 |-> "Luv", prophoto |-> "Rgb", linprophoto |-> "Rgb",
@@ -122,4 +122,5 @@ PairExists(a, b) ==
      /\ Routable(x, c)
      /\ \A h \in DOMAIN r : r[h] \notin ManualMissing
      /\ (SameStdOnly(x, c) => NodeStd[a] = NodeStd[b])
+     /\ (x = "Lms" /\ c = "Lms" => a = b)      \* Lms <- Lms is written for one matrix meta type only: no change of cone matrix
 =============================================================================
